@@ -444,7 +444,11 @@ func C09(r *ev.Run) {
 	var pairs []crashPair
 	for _, lss := range []int{512, 4096} {
 		minSectors := int64(2 + 2*(128*128/lss) + 1 + 8)
-		for _, dsz := range []int64{minSectors * int64(lss), 10 << 20, 1000000 + int64(lss)*40} { // the last one is not a whole number of sectors
+		sizes := []int64{minSectors * int64(lss), 10 << 20, 1000000 + int64(lss)*40} // the last one is not a whole number of sectors
+		if lss == 512 {
+			sizes = append(sizes, 1<<41+1<<20) // more than 2^32 sectors: the protective MBR cannot say where the disk ends
+		}
+		for _, dsz := range sizes {
 			for _, pm := range []bool{true, false} {
 				for oi, o := range shapes {
 					for ni, n := range shapes {
